@@ -18,6 +18,7 @@ func main() {
 		NQuick:    400,
 		NThorough: 6000,
 		Corpus:    corpus,
+		VM:        true,
 		Extra:     tailCalls,
 	})
 }
